@@ -209,7 +209,7 @@ theorem canon_shape_on (puny : Str → Str) (sf : Bool)
         · exact hnl_nb.1 (hsub hm)
         · exact hnl_nb.2 (hsub hm)
       exact requote_auth_not_mem hd' false u0 hnu hcu
-    have hcc : isControlChar c = false := noCtl_requote false _ hctl0 c hcu
+    have hcc : isControlChar c = false := noCtl_requote_auth false hctl0 c hcu
     refine ⟨⟨?_, unsafe_of_ctl hcc⟩, hnot '[' (by simp), hnot ']' (by simp), ?_⟩
     · have h1 := hnot '/' (by simp)
       have h2 := hnot '?' (by simp)
@@ -240,7 +240,7 @@ theorem canon_shape_on (puny : Str → Str) (sf : Bool)
         · exact hnl_nb.1 (hsub hm)
         · exact hnl_nb.2 (hsub hm)
       exact requote_auth_not_mem hd' false u0 hnu hcu
-    have hcc : isControlChar c = false := noCtl_requote false _ hctl0 c hcu
+    have hcc : isControlChar c = false := noCtl_requote_auth false hctl0 c hcu
     refine ⟨⟨?_, unsafe_of_ctl hcc⟩, hnot '[' (by simp), hnot ']' (by simp), ?_⟩
     · have h1 := hnot '/' (by simp)
       have h2 := hnot '?' (by simp)
